@@ -1065,15 +1065,32 @@ func (f *frame) evalLoopTerm(e *Expr, li *loopInfo, st *State, ov map[ssa.Value]
 
 // resolveLocal finds the SSA value of source variable `name` at the start of block at.
 func (f *frame) resolveLocal(name string, at *ssa.BasicBlock) ssa.Value {
-	for _, p := range f.fn.Params {
-		if p.Name() == name {
-			// parameters may be reassigned; then a phi/DebugRef below takes precedence
-			break
-		}
-	}
+	return f.resolveLocalAt(name, at, 0)
+}
+
+// resolveLocalAt finds the SSA value of source variable `name` just before instruction index upto of block at
+// (upto == 0: at the start of the block, after its phis). Address-taken locals resolve to their address.
+func (f *frame) resolveLocalAt(name string, at *ssa.BasicBlock, upto int) ssa.Value {
 	b := at
-	first := true
+	limit := upto
 	for b != nil {
+		// last DebugRef of a variable called name in this block (before limit)
+		var last ssa.Value
+		for i, in := range b.Instrs {
+			if limit >= 0 && i >= limit {
+				break
+			}
+			if d, ok := in.(*ssa.DebugRef); ok {
+				if obj := d.Object(); obj != nil && obj.Name() == name {
+					if _, isVar := obj.(*types.Var); isVar {
+						last = d.X
+					}
+				}
+			}
+		}
+		if last != nil {
+			return last
+		}
 		// phis named `name`
 		for _, in := range b.Instrs {
 			if phi, ok := in.(*ssa.Phi); ok {
@@ -1084,26 +1101,7 @@ func (f *frame) resolveLocal(name string, at *ssa.BasicBlock) ssa.Value {
 				break
 			}
 		}
-		if !first {
-			// last DebugRef of a variable called name in this block
-			var last ssa.Value
-			for _, in := range b.Instrs {
-				if d, ok := in.(*ssa.DebugRef); ok {
-					if id, ok2 := d.Expr.(interface{ String() string }); ok2 {
-						_ = id
-					}
-					if obj := d.Object(); obj != nil && obj.Name() == name {
-						if _, isVar := obj.(*types.Var); isVar && !d.IsAddr {
-							last = d.X
-						}
-					}
-				}
-			}
-			if last != nil {
-				return last
-			}
-		}
-		first = false
+		limit = -1
 		b = b.Idom()
 	}
 	for _, p := range f.fn.Params {
@@ -1112,6 +1110,50 @@ func (f *frame) resolveLocal(name string, at *ssa.BasicBlock) ssa.Value {
 		}
 	}
 	return nil
+}
+
+// assertScope: names resolved just before instruction idx of block b.
+func (f *frame) assertScope(b *ssa.BasicBlock, idx int, st *State) *Scope {
+	vc := f.vc
+	sc := vc.newScope(st, vc.entry)
+	if f == vc.topFrame || f.depth == 0 {
+		for k, v := range vc.topVars {
+			sc.vars[k] = v
+		}
+	}
+	sc.resolver = func(name string) (tv, bool) {
+		v := f.resolveLocalAt(name, b, idx)
+		if v == nil {
+			return tv{}, false
+		}
+		var s Sym
+		func() {
+			defer func() {
+				if r := recover(); r != nil {
+					if _, ok := r.(unsupported); ok {
+						s = nil
+						return
+					}
+					panic(r)
+				}
+			}()
+			s = f.val(v)
+		}()
+		if s == nil {
+			return tv{}, false
+		}
+		t := v.Type()
+		// address of a scalar local: use the stored value
+		if a, ok := s.(adv); ok {
+			if p, isP := t.Underlying().(*types.Pointer); isP {
+				if _, isAlloc := v.(*ssa.Alloc); isAlloc {
+					return tv{vc.load(st, a), p.Elem()}, true
+				}
+			}
+		}
+		return tv{s, t}, true
+	}
+	return sc
 }
 
 var _ = token.NoPos
